@@ -186,6 +186,10 @@ Show(m, v, seen) ==
            [] o.k = "tuple" -> (IF v.v \in seen THEN "(...)"
                                 ELSE "(" \o ShowSeq(m, o.es, 1, seen \cup {v.v}) \o (IF Len(o.es) = 1 THEN "," ELSE "") \o ")")
            [] o.k = "range" -> "Range(" \o ToString(o.a) \o ", " \o ToString(o.b) \o ")"
+           [] o.k = "map" -> (IF v.v \in seen THEN "{...}"
+                              ELSE IF o.es = <<>> THEN "{}"
+                              ELSE "{" \o Show(m, o.es[1][1], seen \cup {v.v}) \o ": " \o Show(m, o.es[1][2], seen \cup {v.v}) \o
+                                   (IF Len(o.es) > 1 THEN ", ?" ELSE "") \o "}")
            [] o.k = "clo" -> "<fn " \o o.name \o " @ [MEMADDR]>"
            [] o.k = "inst" -> "<" \o ClassName(m, o.cls) \o " instance @ [MEMADDR]>"
            [] o.k = "class" -> "<class " \o o.name \o ">"
@@ -355,6 +359,7 @@ Items(e) ==
       [] e.k = "call" -> <<Ev(e.f)>> \o EvAll(e.args, 1) \o <<It1("call", Len(e.args))>>
       [] e.k = "vec" -> EvAll(e.es, 1) \o <<It1("mkvec", Len(e.es))>>
       [] e.k = "tup" -> EvAll(e.es, 1) \o <<It1("mktup", Len(e.es))>>
+      [] e.k = "map" -> EvAll(e.kvs, 1) \o <<It1("mkmap", Len(e.kvs) \div 2)>>      \* kvs: k1, v1, k2, v2, ...
       [] e.k = "idx" -> <<Ev(e.o), Ev(e.i), It("idx")>>
       [] e.k = "setidx" -> <<Ev(e.o), Ev(e.i), Ev(e.e), It("setidx")>>
       [] e.k = "range" -> <<Ev(e.l), Ev(e.r), It("mkrange")>>
@@ -497,6 +502,25 @@ CallValue(m, f, args, self) ==
            [] OTHER -> RaiseErr(m, Err("TypeError", "Can only call functions and methods."))
     ELSE RaiseErr(m, Err("TypeError", "Can only call functions and methods."))
 
+(* Value::has_hash; tuples recursively (a tuple met again on the way down counts as hashable) *)
+RECURSIVE Hashable(_, _, _)
+Hashable(m, v, fuel) ==
+    IF v.k \in {"nil", "bool", "num", "flt", "str", "cls"} THEN TRUE
+    ELSE IF v.k # "ref" THEN FALSE
+    ELSE LET o == m.store[v.v] IN
+         IF o.k \in {"class", "range"} THEN TRUE
+         ELSE IF o.k = "tuple" THEN (fuel = 0 \/ \A i \in 1..Len(o.es) : Hashable(m, o.es[i], fuel - 1))
+         ELSE FALSE
+UnhashErr(m, v) == Err("ValueError", "Cannot use unhashable value '" \o Text(m, v) \o "' as HashMap key.")
+MapObj(es) == [k |-> "map", es |-> es]                     \* es: sequence of <<key, value>>; keys pairwise not ==
+MapFind(m, es, key) == LET hit == {i \in 1..Len(es) : ValEq(m, es[i][1], key, 6)} IN IF hit = {} THEN 0 ELSE CHOOSE i \in hit : TRUE
+MapPut(m, es, key, v) == LET i == MapFind(m, es, key) IN IF i = 0 THEN Append(es, <<key, v>>) ELSE [es EXCEPT ![i] = <<es[i][1], v>>]
+RECURSIVE MapBuild(_, _, _, _)
+MapBuild(m, kvs, i, acc) ==          \* build_hash_map: first unhashable key wins; later duplicates overwrite the value
+    IF i > Len(kvs) THEN [es |-> acc, err |-> NoErr]
+    ELSE IF ~Hashable(m, kvs[i], 6) THEN [es |-> acc, err |-> UnhashErr(m, kvs[i])]
+    ELSE MapBuild(m, kvs, i + 2, MapPut(m, acc, kvs[i], kvs[i + 1]))
+
 StopIterV(m) == [m |-> Alloc(m, InstObj(Cls("StopIter"), [context |-> Nil])), v |-> Ref(NewAddr(m))]
 AttrErr(name) == Err("AttributeError", "Undefined property '" \o name \o "'.")
 
@@ -520,6 +544,36 @@ Invoke(m, r, name, args) ==
            [] name = "len" -> IF Arity(0) THEN RaiseErr(m, ParamErr(0, n)) ELSE Ret(m, N(Len(es)))
            [] name = "iter" -> IF Arity(0) THEN RaiseErr(m, ParamErr(0, n))
                                ELSE Ret(Alloc(m, IterObj("vec", r.v, 0)), Ref(NewAddr(m)))
+           [] OTHER -> RaiseErr(m, AttrErr(name))
+    ELSE IF IsKind(m, r, "map") THEN
+         LET es == Obj(m, r).es
+             Key == args[1]
+             AsVec(xs) == Ret(Alloc(m, VecObj(xs)), Ref(NewAddr(m)))
+         IN
+         CASE name \in {"has_key", "get", "remove"} ->
+                IF Arity(1) THEN RaiseErr(m, ParamErr(1, n))
+                ELSE IF ~Hashable(m, Key, 6) THEN RaiseErr(m, UnhashErr(m, Key))
+                ELSE LET i == MapFind(m, es, Key) IN
+                     IF name = "has_key" THEN Ret(m, B(i # 0))
+                     ELSE IF name = "get" THEN Ret(m, IF i = 0 THEN Nil ELSE es[i][2])
+                     ELSE IF i = 0 THEN Ret(m, Nil)
+                     ELSE Ret([m EXCEPT !.store[r.v].es = SubSeq(es, 1, i - 1) \o SubSeq(es, i + 1, Len(es))], es[i][2])
+           [] name = "insert" ->
+                IF Arity(2) THEN RaiseErr(m, ParamErr(2, n))
+                ELSE IF ~Hashable(m, Key, 6) THEN RaiseErr(m, UnhashErr(m, Key))
+                ELSE LET i == MapFind(m, es, Key) IN
+                     Ret([m EXCEPT !.store[r.v].es = MapPut(m, es, Key, args[2])], IF i = 0 THEN Nil ELSE es[i][2])
+           [] name = "clear" -> IF Arity(0) THEN RaiseErr(m, ParamErr(0, n)) ELSE Ret([m EXCEPT !.store[r.v].es = <<>>], Nil)
+           [] name = "len" -> IF Arity(0) THEN RaiseErr(m, ParamErr(0, n)) ELSE Ret(m, N(Len(es)))
+           [] name = "keys" -> IF Arity(0) THEN RaiseErr(m, ParamErr(0, n)) ELSE AsVec([i \in 1..Len(es) |-> es[i][1]])
+           [] name = "values" -> IF Arity(0) THEN RaiseErr(m, ParamErr(0, n)) ELSE AsVec([i \in 1..Len(es) |-> es[i][2]])
+           [] name = "items" ->
+                IF Arity(0) THEN RaiseErr(m, ParamErr(0, n))
+                ELSE LET RECURSIVE Pairs(_, _, _)
+                         Pairs(mm, i, acc) == IF i > Len(es) THEN [m |-> mm, acc |-> acc]
+                                              ELSE Pairs(Alloc(mm, TupObj(<<es[i][1], es[i][2]>>)), i + 1, Append(acc, Ref(NewAddr(mm))))
+                         pr == Pairs(m, 1, <<>>)
+                     IN Ret(Alloc(pr.m, VecObj(pr.acc)), Ref(NewAddr(pr.m)))
            [] OTHER -> RaiseErr(m, AttrErr(name))
     ELSE IF IsKind(m, r, "tuple") THEN
          CASE name = "len" -> IF Arity(0) THEN RaiseErr(m, ParamErr(0, n)) ELSE Ret(m, N(Len(Obj(m, r).es)))
@@ -683,6 +737,10 @@ Micro(m) ==
       [] it.i = "mktup" ->
          LET m2 == Alloc(m1, TupObj(LastN(vs, it.a))) IN
          SetFrame(m2, [fr1 EXCEPT !.vs = Append(PopN(vs, it.a), Ref(NewAddr(m1)))])
+      [] it.i = "mkmap" ->
+         LET r == MapBuild(m, LastN(vs, 2 * it.a), 1, <<>>) IN
+         IF IsErr(r.err) THEN Fail(r.err)
+         ELSE LET m2 == Alloc(m1, MapObj(r.es)) IN SetFrame(m2, [fr1 EXCEPT !.vs = Append(PopN(vs, 2 * it.a), Ref(NewAddr(m1)))])
       [] it.i = "idx" ->
          LET o == vs[Len(vs) - 1] i == vs[Len(vs)] IN
          IF IsKind(m, o, "vec") \/ IsKind(m, o, "tuple") THEN
